@@ -831,6 +831,9 @@ impl Subject for TableSubj {
                     } else if later - i > 16 {
                         cx.probe("c05.handle_checked_after_16_later_adds");
                     }
+                    if offs[i] > 65_535 {
+                        cx.probe("c05.handle_beyond_65535_checked");
+                    }
                     if e.hraw as u64 != offs[i] {
                         cx.fail(P05, "handle_is_offset", format!("{}: handle returned for node #{} ({}) is {}, the node starts at {}", self.subject.name(), i, e.kind.name(), e.hraw, offs[i]));
                     }
